@@ -47,7 +47,7 @@ func classesOf(tags string) map[string]bool {
 	cl := map[string]bool{}
 	for _, t := range strings.Split(tags, ",") {
 		switch {
-		case t == "t" || t == "tK":
+		case t == "t" || t == "tK" || t == "tm":
 			cl["text"] = true
 		case t == "resize":
 			cl["resize"] = true
